@@ -8,7 +8,8 @@ validator of harness/c09.py compares with this simulator reply by reply.
 Ground truth (`spec`), all integers:
   buffer   SCP data buffer size reported by sver
   base     sv->sdram_sys (where a flood-filled image is assembled)
-  vcpu     sv->vcpu_base
+  vcpu     sv->vcpu_base (default)
+  vcpus    [[x, y, vcpu_base], ...]    optional: chips whose sv->vcpu_base differs from the default
   chips    [[x, y, [[state, app_id, [image bytes]] * 18]], ...]
   sched    [[[x, y], ...], ...]   for the k-th flood fill (k-th FFS received) the chips that miss it:
                                   such a chip ignores every packet of that fill (an exhausted schedule
@@ -83,6 +84,7 @@ class SimMachine(object):
         self.buffer = spec["buffer"]
         self.base = spec["base"]
         self.vcpu = spec["vcpu"]
+        self.vcpus = {(x, y): v for x, y, v in spec.get("vcpus", [])}
         self.order = [(x, y) for x, y, _ in spec["chips"]]
         self.cores = {(x, y): [[s, a, bytes(bytearray(img))] for s, a, img in cs] for x, y, cs in spec["chips"]}
         self.fills = {c: None for c in self.order}
@@ -102,16 +104,17 @@ class SimMachine(object):
 
     # ------------------------------------------------------------------ memory
     def read(self, chip, addr, n):
+        vcpu = self.vcpus.get(chip, self.vcpu)
         out = bytearray(n)
-        sv = struct.pack("<I", self.base), struct.pack("<I", self.vcpu)
+        sv = struct.pack("<I", self.base), struct.pack("<I", vcpu)
         for i in range(n):
             a = addr + i
             if SV_BASE + SV_SDRAM_SYS <= a < SV_BASE + SV_SDRAM_SYS + 4:
                 out[i] = bytearray(sv[0])[a - SV_BASE - SV_SDRAM_SYS]
             elif SV_BASE + SV_VCPU_BASE <= a < SV_BASE + SV_VCPU_BASE + 4:
                 out[i] = bytearray(sv[1])[a - SV_BASE - SV_VCPU_BASE]
-            elif self.vcpu <= a < self.vcpu + VCPU_SIZE * N_CORES:
-                p, off = divmod(a - self.vcpu, VCPU_SIZE)
+            elif vcpu <= a < vcpu + VCPU_SIZE * N_CORES:
+                p, off = divmod(a - vcpu, VCPU_SIZE)
                 if off == VCPU_CPU_STATE:
                     out[i] = self.cores[chip][p][0] & 0xff
                 elif off == VCPU_APP_ID:
